@@ -166,7 +166,8 @@ def attr_chain(e):
     return 0
 
 
-def exprs(depth):
+def exprs(depth, names=None):
+    names = names or ATTRS
     leaf = st.one_of(
         st.sampled_from(sorted(PREDS)).map(lambda p: ['is', p]),
         st.sampled_from(CONSTS).map(lambda c: ['eq', c]),
@@ -175,13 +176,16 @@ def exprs(depth):
     )
     if depth <= 0:
         return leaf
-    sub = st.deferred(lambda: exprs(depth - 1))
+    sub = st.deferred(lambda: exprs(depth - 1, names))
     comp = st.one_of(
         st.tuples(sub, sub).map(lambda t: ['and', t[0], t[1]]),
         st.tuples(sub, sub).map(lambda t: ['or', t[0], t[1]]),
         sub.map(lambda s: ['not', s]),
-        st.tuples(st.sampled_from(ATTRS), sub).map(lambda t: ['attr', t[0], t[1]]),
-        st.tuples(st.sampled_from(ATTRS), sub).map(lambda t: ['attr', t[0], t[1]]),
+        st.tuples(st.sampled_from(names), sub).map(lambda t: ['attr', t[0], t[1]]),
+        st.tuples(st.sampled_from(names), sub).map(lambda t: ['attr', t[0], t[1]]),
+        # same attribute name re-entered below an operator whose other operand reads the outer attribute value
+        st.tuples(st.sampled_from(names), st.sampled_from(['and', 'or']), sub, sub, st.booleans()).map(
+            lambda t: ['attr', t[0], [t[1], ['attr', t[0], t[2]], t[3]] if t[4] else [t[1], t[3], ['attr', t[0], t[2]]]]),
     )
     return st.integers(0, 3).flatmap(lambda i: leaf if i == 0 else comp)
 
@@ -235,7 +239,10 @@ BASES = [['any', 'object'], ['any', 'object'], ['any', 'Any'], ['cls', 'int'], [
 @st.composite
 def _case(draw, tier):
     d = draw(st.sampled_from([1, 2, 3, 3, 4, 5] + ([6, 8] if tier == 'thorough' else [])))
-    vs = draw(st.lists(exprs(d), min_size=1, max_size=3))
+    # attribute names are drawn from a small per-case subset so that the same name recurs along and across
+    # IsAttr chains (local-variable collisions in the generated code need equal names at different depths)
+    names = draw(st.lists(st.sampled_from(ATTRS), min_size=1, max_size=draw(st.sampled_from([1, 1, 2, 5])), unique=True))
+    vs = draw(st.lists(exprs(d, names), min_size=1, max_size=3))
     if draw(st.booleans()):
         obj = draw(obj_for(draw(st.sampled_from(vs))))
     else:
